@@ -36,7 +36,8 @@ Exp(tok) == IF tok[2] = -1 THEN << <<tok[1], FLo>>, <<tok[1], FLo + 1>> >>
             ELSE IF tok[2] = -2 THEN << <<tok[1], G2Lo>>, <<tok[1], G2Lo + 1>> >> ELSE <<tok>>
 First2 == LET e == First(Enum, 2) IN
           First(IF Len(e) = 0 THEN <<>> ELSE IF Len(e) = 1 THEN Exp(e[1]) ELSE Exp(e[1]) \o Exp(e[2]), 2)
-Reads == [len |-> Card, iter |-> Enum, range |-> Enum, all |-> Enum, range2 |-> First2,
+\* (iterpair: two iterators alive at once, advanced alternately - each enumerates the whole set)
+Reads == [len |-> Card, iter |-> Enum, iterpair |-> <<Enum, Enum>>, range |-> Enum, all |-> Enum, range2 |-> First2,
           contains |-> [i \in 1..Len(Asc(His)) |-> [j \in 1..Len(Asc(Los)) |-> <<Asc(His)[i], Asc(Los)[j]>> \in mem]]]
 
 Init == mem = {} /\ fill = [h \in His |-> FALSE] /\ fill2 = [h \in His |-> FALSE] /\ last = R("Init", <<>>, <<>>)
